@@ -1,5 +1,5 @@
 """Shape of the code the SCP burst model (coq/Model/SCP.v) was written from: the statements of
-SCPConnection.send_scp_burst, SCPConnection.send_scp and seqs in rig/machine_control/scp_connection.py, taken
+SCPConnection.send_scp_burst, SCPConnection.send_scp, SCPConnection.__init__ and seqs in rig/machine_control/scp_connection.py, taken
 from the ast (nothing is imported or run), docstrings and comments dropped, one (depth, text) pair per
 statement in source order -- compound statements contribute their header (`while <test>:`, `if <test>:`,
 `else:`, `try:`, `except <type>:`, `for <target> in <iter>:`, `class <name>(<bases>):`, `def <name>(<args>):`).
@@ -86,6 +86,7 @@ def main():
     out = [D.HEADER % "dump_c06s.py"]
     for coq, where in (("shape_send_scp_burst", ["SCPConnection", "send_scp_burst"]),
                        ("shape_send_scp", ["SCPConnection", "send_scp"]),
+                       ("shape_init", ["SCPConnection", "__init__"]),
                        ("shape_seqs", ["seqs"])):
         f = find(tree, where)
         if f.decorator_list:
